@@ -376,3 +376,24 @@ pub fn replay(case: &Value) -> Vec<Violation> {
     with_curve!(case.curve, G, run_case::<G>(0, &case, &mut st));
     st.violations
 }
+
+pub fn shrink(case: &Value) -> Vec<Value> {
+    let Ok(c) = serde_json::from_value::<Case>(case.clone()) else { return vec![] };
+    let mut out = vec![];
+    for k in 0..c.k {
+        let mut d = c.clone();
+        d.k = k;
+        out.push(to_value(&d));
+    }
+    if c.vec_kind != 0 {
+        let mut d = c.clone();
+        d.vec_kind = 0;
+        out.push(to_value(&d));
+    }
+    if c.fac_kind != 0 {
+        let mut d = c.clone();
+        d.fac_kind = 0;
+        out.push(to_value(&d));
+    }
+    out
+}
